@@ -72,6 +72,7 @@ package driver
 //@       && len($arg0) == ite(start + 128 <= len(sources), 128, len(sources) - start)
 //@       && forall j int :: 0 <= j && j < len($arg0) ==> elem_addr($arg0, j) == elem_addr(sources, start + j)
 //@   callsite concurrentGrab pre: $arg3 != nil
+//@   callsite combineProfiles both: p != nil && chunkP != nil
 //@   loop 1
 //@     invariant 0 <= start && start % 128 == 0 && ui != nil
 
